@@ -114,6 +114,10 @@ func hash64(s string) uint64 {
 	return h.Sum64()
 }
 
+// Tolerate, if set, tells whether a violation (kind, operation kind) is a recorded known finding
+// that does not stop the exploration of the subtree below it.
+var Tolerate func(kind, opKind string) bool
+
 // StepHook, if set, is installed as the world's OnStep callback (single-threaded sub modes only).
 var StepHook func(step int)
 
@@ -129,6 +133,11 @@ func RunHistory(sc *Scenario, cfg drv.Config, prelude, hist []model.Op) (*drv.Wo
 	step := func(op model.Op) *drv.Violation {
 		k++
 		if v := x.Exec(op); v != nil {
+			if k < all && Tolerate != nil && Tolerate(v.Kind, op.K.String()) {
+				// a recorded known finding inside a prefix: it was reported when this prefix was a node;
+				// the exploration continues below it (the finding does not corrupt the state)
+				return nil
+			}
 			return v
 		}
 		if k == all || sc.ObserveAll {
@@ -222,7 +231,12 @@ func (e *explorer) node(worker int, hist []model.Op, pad int, st map[uint64]stru
 	e.panics.Add(int64(x.Stat.Panics))
 	if v != nil {
 		e.record(cfg, hist, v)
-		return nil, 0
+		all := len(e.prelude) + len(hist)
+		if Tolerate == nil || v.Step != all || all == 0 || len(hist) == 0 || !Tolerate(v.Kind, hist[len(hist)-1].K.String()) || len(hist) >= e.sc.Depth {
+			return nil, 0
+		}
+		// known finding: keep exploring below this node
+		return e.sc.Alphabet(x.M), pad
 	}
 	nextPad := 0
 	if cfg.AutoPad != 0 {
